@@ -71,6 +71,9 @@ def rand_content(rng, depth=0, maxdepth=4, wf=False):
     if k < 0.62:
         lines = [rand_line(rng) if (wf or rng.random() < 0.85) else rand_str(rng) for _ in range(rng.choice([0, 1, 2, 3]))]
         return ['c', lines]
+    if k > 0.97 and depth + 1 < maxdepth:
+        # the same list/dict/block object occurring twice (shared, not cyclic)
+        return ['dup', rand_content(rng, depth + 1, maxdepth, wf), rand_content(rng, depth + 1, maxdepth, wf)]
     n = rng.choice([0, 1, 1, 2, 2, 3, 4])
     items = [rand_content(rng, depth + 1, maxdepth, wf) for _ in range(n)]
     return ['l' if k < 0.9 else 'd', items]
@@ -87,6 +90,8 @@ def content_sx(c):
         return [2, c[1], bool(c[2])]
     if t == 'l':
         return [3] + [content_sx(x) for x in c[1]]
+    if t == 'dup':
+        return [3, content_sx(c[1]), content_sx(c[2]), content_sx(c[1])]
     if t == 'd':
         return [4] + [content_sx(x) for x in c[1]]
     if t == 'b':
@@ -98,6 +103,8 @@ def content_sx(c):
 
 def content_shape(c):
     t = c[0]
+    if t == 'dup':
+        return 'dup'
     if t in 'ld':
         return t + '(' + ''.join(content_shape(x) for x in c[1])[:12] + ')'
     return t
